@@ -766,6 +766,14 @@ mod real {
             "result time={} ops={} crashes={} recoveries={} lin={} conv={} errors={} history={}",
             res.total_time_ms, res.total_operations, res.crashes, res.recoveries, res.linearizable, res.converged, res.errors.len(), res.operation_history.len()
         ));
+        // a second instance through `run_operations(ops)` as ONE call: its own loop and time-limit test
+        // (`current_time >= max_time_ms`) decide how many steps are made
+        {
+            let cfg2 = dst_config(preset, seed).expect("same preset");
+            let mut whole = DSTSimulation::with_config(cfg2);
+            let r = whole.run_operations(ops).clone();
+            lines.push(format!("whole time={} ops={} crashes={} recoveries={}", r.total_time_ms, r.total_operations, r.crashes, r.recoveries));
+        }
         raw.push(format!("summary {}", res.summary()));
         raw.push(format!("steps-with-2+-crashed {}", multi));
         raw.push(format!("avg-recovery {:?}", sim.crash_simulator().stats().average_recovery_time_ms.to_bits()));
@@ -2083,6 +2091,58 @@ fn part_b(a: &Args, out: &mut Out) {
     out.extra.insert("children_per_run".into(), json!(k_children));
 }
 
+/// the coverage audit of C20 against the eleven classes of missed inputs (also DESIGN §4 C20 "Coverage audit")
+fn audit() -> serde_json::Value {
+    json!({
+      "1 entry path / variant": {
+        "covered": "every pub harness-like type, every pub fn of those and of the kernel types, every preset constructor, every pub field of a harness configuration struct, every free run_* / summarize_* function of the simulation files is ENUMERATED FROM THE SOURCE the binary was built against (c20_src.rs) and must be driven by c20.rs / c20_more.rs or listed with a reason: C20:coverage:{harness,entry,config-field}-not-…; the table type → M / E / K / N is in extra.source_entry_points",
+        "found_open_and_closed": "117 public entry points and 14 configuration fields were never driven (all run_*_batch / summarize_* / BatchRunner / with_seed, DSTSimulation and CrashSimulator API, RedisDSTSimulation::new_uniform / with_key_distribution / step, SimulatedConnection, ScenarioBuilder::run_with_eviction, both Workload generators, SimulationContext clock offsets / id counter, …): families batch, dst-api, scenario-timing, streaming-/compaction-workload, connection-gen, multi-node-api, new kernel ops",
+        "open": "SimulatedRuntime::clock()/network() and the simulated network / clock behind them (references to dropped temporaries, no caller); acl_dst (cargo feature acl off) — level N with the reason, both statically scanned"
+      },
+      "2 input alphabet": {
+        "covered": "seeds s…s+4 (s+19 thorough) AND one u64-edge seed per family × preset (0, 2^32, 2^63-1, 2^63, u64::MAX-1, u64::MAX); kernel seeds incl. the edges; scenario scripts with out-of-order and tied times",
+        "open": "-"
+      },
+      "3 comparison at equality": {
+        "covered": "RNG range / zone / Bernoulli boundaries as bit patterns; WAL file sizes around one entry; DSTSimulation time limit COMPUTED from a probe run (time after 40 steps −1 / exact / +1); workload probability bands at roll 0.0 / 1.0; probabilities 0 and 1 in every generated configuration; eviction ties",
+        "open": "WAL `i == crash_at` at num_writes is reached by seed choice only"
+      },
+      "4 configuration": {
+        "covered": "every pub configuration field enumerated from the source must be varied by a generated configuration or be proved inert (no `.field` read anywhere); CRDT replica counts 1…8 and drop probability 0 / 0.3 / 0.9 / 1.0; crash probability 0 … 1; zipf exponent 0.5 … 2; store presets and field-wise rates; prefixes, replica ids",
+        "found": "drop probability 1.0 reaches the ORSet violation text in HashSet order (C20:violation-text-in-hashset-order:crdt-orset)",
+        "open": "--features simulation"
+      },
+      "5 capacity thresholds": {
+        "covered": "MAX_PENDING_DELTAS, max_keys_per_sync, WAL file size, compaction / write-buffer limits (round 4); 400-command pipelines over the 8192-byte connection buffers; more than 5 checkpoints per node; Zipf tables of 20 and 1000 keys",
+        "open": "MAX_OUTBOUND_QUEUE (not on a simulation path: allow-listed off-path, machine-checked)"
+      },
+      "6 fault kinds": {
+        "covered": "child exit ≠ 0 = C20:child-failed; a panic on a generated configuration is an outcome that must be identical everywhere; a panic on a BUILT-IN preset = C20:harness-panicked",
+        "open": "error returns of WalDSTHarness::run (rotator creation) are unreachable with the simulated store"
+      },
+      "7 history shapes": {
+        "covered": "fresh process, twice in one process, after another harness on the thread, consecutive runs inside a batch compared element-wise with single runs, manual stepping without the time limit",
+        "open": "-"
+      },
+      "8 node-global state": {
+        "covered": "thread-local BUGGIFY configuration (defect C, required set_config calls checked statically) and STATISTICS (finding buggify-stats-cumulative); scan kind global-state lists every function touching a static / thread_local (only BUGGIFY_CONTEXT exists)",
+        "open": "a BuggifySuppressor held by the caller is an input, not hidden state"
+      },
+      "9 observations": {
+        "covered": "canonical trace + verbatim reports, both across processes AND in-process; final-state accessors in the order they return (order-of: lines); batch summaries; float statistics as bit patterns",
+        "open": "a {:?} of a whole hash container inside a format string is invisible to the static scan (found dynamically only when a run prints it)"
+      },
+      "10 finding signatures": {
+        "covered": "known findings are keyed by cause with exact predicates: first differing line is the statistics line (dst-api), an order-of: accessor line, two violation lines equal after canonicalising the sets; anything else keeps the bare signature and is a VIOLATION (self-test n)",
+        "open": "-"
+      },
+      "11 harness fragility": {
+        "covered": "source root from harness/Cargo.toml; scan failure / implausibly small scan = C20:source:scan-failed; C20_ONLY set = C20:harness:partial-run; a family without a run = C20:harness:empty-cell; unknown harness / preset in a child = exit 2 = C20:child-failed",
+        "open": "-"
+      }
+    })
+}
+
 pub fn run(a: &Args) {
     // `gen_bool(NaN)` panics by design of rand's Bernoulli; the answer line says `crash`
     std::panic::set_hook(Box::new(|_| {}));
@@ -2092,5 +2152,6 @@ pub fn run(a: &Args) {
     buggify::set_config(FaultConfig::default());
     let n = out.n_ops() + a.n as usize;
     part_a(a, &mut out, n);
+    out.extra.insert("audit".into(), audit());
     out.finish("a kernel script is non-trivial when at least 3 of its ops return a value; a harness run is non-trivial when its trace has more than 3 lines (wal: its one-line result struct with 13 numbers)");
 }
